@@ -94,6 +94,14 @@ def number_value(num):
 
 def classify(kind, s):
     """Reference verdict for xbt_parse_get_<kind>(s)."""
+    v = _classify(kind, s)
+    if v.value is not None and abs(v.value) > DBL_MAX * (1 - Fraction(1, 10**15)):
+        # number in range but number x multiplier beyond DBL_MAX: inf, or a rejection, are both defensible
+        return Verdict("lenient", None, "product-overflow", v.unit, v.tags)
+    return v
+
+
+def _classify(kind, s):
     if "\0" in s:
         return Verdict("lenient", None, "nul")
     body = s[1:] if s[:1] in ("+", "-") else s
@@ -134,8 +142,6 @@ def classify(kind, s):
         return Verdict("lenient", x * tab[DEFAULT_UNIT[kind]], "unitless-nonzero", unit, tags)   # deprecated form
     if unit in tab:
         v = x * tab[unit]
-        if abs(v) > DBL_MAX * (1 - Fraction(1, 10**15)):
-            return Verdict("lenient", None, "product-overflow", unit, tags)
         if unit not in BASE_UNITS:
             tags.append("prefix")
         return Verdict("accept", v, "table", unit, tags)
@@ -172,3 +178,127 @@ def model_double(num, mult):
         return float(num) * float(mult)
     except (ValueError, OverflowError):
         return None
+
+
+# =====================================================================================================
+# C45: reference Mersenne Twister (Matsumoto & Nishimura 1998, the algorithm std::mt19937 is specified to be by
+# ISO C++ [rand.predef]) and the distributions documented in include/xbt/random.hpp / src/xbt/random.cpp comments.
+
+M32 = 0xFFFFFFFF
+
+
+class MT19937:
+    N, M = 624, 397
+
+    def __init__(self, seed=5489):
+        self.seed(seed)
+
+    def seed(self, s):
+        x = [0] * self.N
+        x[0] = s & M32
+        for i in range(1, self.N):
+            x[i] = (1812433253 * (x[i - 1] ^ (x[i - 1] >> 30)) + i) & M32
+        self.x, self.p = x, self.N
+
+    def set_state(self, words, p):
+        self.x, self.p = [w & M32 for w in words], p
+
+    def _twist(self):
+        x, N, M = self.x, self.N, self.M
+        for k in range(N):
+            y = (x[k] & 0x80000000) | (x[(k + 1) % N] & 0x7FFFFFFF)
+            x[k] = x[(k + M) % N] ^ (y >> 1) ^ (0x9908B0DF if y & 1 else 0)
+        self.p = 0
+
+    def next(self):
+        if self.p >= self.N:
+            self._twist()
+        y = self.x[self.p]
+        self.p += 1
+        return temper(y)
+
+    def clone(self):
+        c = MT19937.__new__(MT19937)
+        c.x, c.p = list(self.x), self.p
+        return c
+
+
+def temper(y):
+    y ^= y >> 11
+    y ^= (y << 7) & 0x9D2C5680
+    y ^= (y << 15) & 0xEFC60000
+    y ^= y >> 18
+    return y & M32
+
+
+def untemper(z):
+    """inverse of temper: the state word that makes the engine output z."""
+    y = z & M32
+    y ^= y >> 18
+    y ^= (y << 15) & 0xEFC60000
+    t = y
+    for _ in range(5):
+        t = y ^ ((t << 7) & 0x9D2C5680)
+    y = t & M32
+    t = y
+    for _ in range(3):
+        t = y ^ (t >> 11)
+    return t & M32
+
+
+def to_int32(v):
+    v &= M32
+    return v - (1 << 32) if v & 0x80000000 else v
+
+
+class XbtRandomModel:
+    """The documented algorithms: uniform_int = rejection sampling on the 32-bit engine output so that every value of
+    [min, max] has the same number of pre-images; uniform_real = min + (max-min) * k / (2^32-1) with k != 2^32-1."""
+
+    def __init__(self, mt):
+        self.mt = mt
+        self.rejected = 0          # engine outputs thrown away by a rejection loop
+        self.raw = 0               # engine outputs consumed
+
+    def _raw(self):
+        self.raw += 1
+        return self.mt.next()
+
+    @staticmethod
+    def int_limit(rng):
+        """acceptance bound for a range of `rng` values (1 <= rng < 2^32): accepted outputs are [0, limit)."""
+        return M32 - M32 % rng
+
+    def uniform_int(self, mn, mx):
+        rng = ((mx & M32) - (mn & M32)) & M32
+        if rng == M32:
+            return to_int32(self._raw() + mn)
+        rng += 1
+        limit = self.int_limit(rng)
+        while True:
+            v = self._raw()
+            if v < limit:
+                break
+            self.rejected += 1
+        return to_int32(v % rng + mn)
+
+    def uniform_real(self, mn, mx):
+        while True:
+            k = self._raw()
+            if k != M32:
+                break
+            self.rejected += 1
+        return mn + (mx - mn) * float(k) / 4294967295.0
+
+    def exponential(self, lam):
+        u = self.uniform_real(0.0, 1.0)
+        return -1.0 / lam * (math.log(u) if u > 0 else -math.inf)
+
+    def normal(self, mean, sd):
+        while True:
+            u1 = self.uniform_real(0.0, 1.0)
+            if u1 >= 2.2250738585072014e-308:
+                break
+        u2 = self.uniform_real(0.0, 1.0)
+        z0 = math.sqrt(-2.0 * math.log(u1)) * math.cos(2.0 * math.pi * u2)
+        return z0 * sd + mean
